@@ -83,7 +83,7 @@ def check_find(r, k, desc):
         if desc[0] == 'local':
             cfg = desc[1]
             cfg = (cfg[0], cfg[1], tuple(cfg[2]) if cfg[2] else None, cfg[3])
-            if a != O.seq_ok_c(O.compile_cfg(cfg), s):
+            if a != O.seq_ok_c(O.compile_cfg(cfg), s[-cfg[0]:]):      # the filter judges its own last window
                 r.ctr['local_filter_differs_from_reference(C12)'] += 1
         exp.append(a)
     st, got, _ = brun(dsw.find_vertices, observed_length=k, bio_filter=f)
@@ -203,6 +203,11 @@ def filter_menu(kmax):
         for w in range(1, k + 1):
             for bias in (0.0, 0.1, 0.25, 0.5):
                 out.append((k, ('rgc', w, bias)))
+        # a local filter whose own window differs from the order it is asked about
+        for kf in (k - 1, k + 1, k - 2):
+            if kf >= 1:
+                for run, gc, mot in ((min(2, kf), None, None), (None, ('0.4', '0.6'), None), (1, ('0.25', '0.75'), None), (None, None, ['AC'] if kf >= 2 else None)):
+                    out.append((k, ('local', (kf, run, gc, mot))))
         out.append((k, ('nopal',)))
         out.append((k, ('table', [])))
         out.append((k, ('table', [O.kmer(0, k)])))
@@ -229,6 +234,12 @@ def run(ctx):
     for d in range(0, 3):
         for rem in itertools.combinations(range(64), d):
             fam.append((3, set(range(64)) - set(rem), ('bool', 'int')))
+    # order 4 with high vertex indices (>= 128): full mask, full minus one vertex, the six binary sub-alphabets
+    fam.append((4, set(range(256)), ('bool', 'int')))
+    for v in range(256):
+        fam.append((4, set(range(256)) - {v}, ('bool',)))
+    for a, b in alph:
+        fam.append((4, {O.idx(''.join(p)) for p in itertools.product(O.NUC[a] + O.NUC[b], repeat=4)}, ('bool',)))
     # very sparse masks at higher orders (a verdict must not depend on how small the accepted fraction is)
     for v in range(4 ** 5):
         fam.append((5, {v}, ('bool',)))
